@@ -6,6 +6,21 @@ import (
 	ss "verif/mc/specstep"
 )
 
+func TestSeedTwoEntries(t *testing.T) {
+	c := Config{NumServers: 3, NumClients: 1, MaxTerm: 4, MaxCommitIndex: 4, FIFO: true, Budgeted: true,
+		Requests: [][]Req{{{Type: "put", Key: "k", Value: "v1"}, {Type: "put", Key: "k", Value: "v2"}}}}
+	sys := New(c)
+	for i, sc := range [][]ss.SeedStep{c.SeedElect(1), c.SeedReplicate(1, 1, c.Others(1)), c.SeedClientRecv(1), c.SeedReplicate(1, 1, []int{2})} {
+		if err := sys.Seed(sc); err != nil {
+			t.Fatalf("script %d: %v\n%v", i, err, sys.Render(sys.Prefix))
+		}
+	}
+	t.Logf("prefix %d steps; commitIndex %s; logs %s", len(sys.Prefix), ss.Canon(sys.Init.Globals["commitIndex"]), ss.Canon(sys.Init.Globals["log"]))
+	if ss.Canon(sys.Init.Globals["commitIndex"].ApplyFunction(num(1))) != "2" {
+		t.Fatal("leader has not committed two entries")
+	}
+}
+
 func TestSeeds(t *testing.T) {
 	put := [][]Req{{{Type: "put", Key: "k", Value: "v"}}}
 	for _, n := range []int{1, 2, 3} {
